@@ -106,6 +106,11 @@ def sortRel (ω : Oracle) (src out : Frame) (by_ : List Str) (asc : Bool) : Bool
    let ks := rowsO.map kc
    (List.range (ks.length - 1)).all (fun i => !lessCells ω asc (ks.getD (i + 1) []) (ks.getD i [])))
 
+def keyHasNaN (f : Frame) (by_ : List Str) : Bool :=
+  by_.any (fun k => match f.get? k with
+    | some c => c.data.any (fun x => match x with | .flt _ .nan => true | _ => false)
+    | none => false)
+
 /-- the per-operation specification (C03, C06, C07, C08, C15, C19) evaluated on the implementation's
 own input and output: returns the property key and whether the observed outcome satisfies it -/
 def relSpec (ω : Oracle) (pre : Pool) (op : Op) (status : String) (post : Pool) : Option (String × Bool) :=
@@ -140,7 +145,10 @@ def relSpec (ω : Oracle) (pre : Pool) (op : Op) (status : String) (post : Pool)
     | _, _ => none
   | .sortValues t by_ asc => pre[t]?.map (fun f =>
       ("c06", if by_.any (fun k => !f.has k) then refused
-              else status == "ok" && post.length == pre.length + 1 && Spec.sortSpec ω f res by_ asc))
+              else status == "ok" && post.length == pre.length + 1 &&
+                -- NaN is not ordered: a key column holding NaN is outside the ordering clause (rows still whole, a permutation)
+                (if keyHasNaN f by_ then res.keys == f.keys && res.rect? && Spec.isPermOf (Spec.rowsOf res) (Spec.rowsOf f)
+                 else Spec.sortSpec ω f res by_ asc)))
   | .dedup t sub keep ip => pre[t]?.map (fun f =>
       ("c07", match Spec.dedupSpec f sub keep with
         | none => refused
